@@ -152,6 +152,7 @@ type FnCtx struct {
 	revealed     map[string]bool
 	opaqueDeps   map[string][]string
 	fieldCells   map[types.Object]map[string]string
+	frameExtraAllow string // extra disjunct for the next frame obligation (see coverModifies)
 	usesReflect  bool
 }
 
